@@ -5,7 +5,7 @@ import ast
 import itertools
 
 from ..absint import FuncV, Interp, ObjV, State
-from ..forms import Const, Form, SliceV, TupleV, fpow, mk_fn, linear_in, is_real_form
+from ..forms import Const, Form, SliceV, TupleV, const_float, fpow, mk_fn, linear_in, is_real_form
 from ..rules import PI, S, body_nodes, check_late_binding
 from ..srcmodel import src_of
 
@@ -21,6 +21,7 @@ EXPLANATION = (
     "ValueError, every complete one constructs without arithmetic on a parameter that was not given. Not decided: agreement with "
     "tanh^2/sinh^2 closed forms and solver tolerance (numerical integration).")
 EXPLANATION += (' Added after the audit wave: C16.1 a user apodisation is tested with `is not None`, never for truthiness (a callable object of length 0, np.poly1d([0.5]), is falsy and was ignored).')
+EXPLANATION += (' Third audit wave: C16.6 the solve_ivp call is not left at the default step control of scipy: it carries a constant max_step below the unit span or a constant rtol below the default 1e-3. An adaptive Runge-Kutta step is sized by the local error estimate alone; at the default tolerance it grows over the flat part of a user profile and a localised feature is stepped over (Bragg reflectivity 0.260 for a profile whose closed form gives 0.375; max_step 0.02..0.25 or rtol 1e-4 all give 0.374..0.375). The clause decides that necessary condition, not the accuracy reached.')
 TRUSTED = ["scipy.integrate.solve_ivp integrates the given system", "conservation of |R|^2-|S|^2 for a system of that matrix shape (mathematics)", "C02.3 typestate"]
 
 REAL_NAMES = {"δ", "s", "k", "F", "z"}
@@ -194,6 +195,18 @@ def rule_boundary_and_apply(ctx):
     ctx.check("C16.1", ok_y0, fi, r.node, f"FBG: y0 = {y0!r}"[:200], "R(+1/2)=1, S(+1/2)=0 for every frequency", "initial state is not [ones(N), zeros(N)]: the reflection boundary condition S(+1/2)=0 is lost")
     fun = kw.get("fun")
     ctx.check("C16.1", isinstance(fun, FuncV) and fun.fi.name == "ode_system", fi, r.node, "FBG: integrates ode_system", "the checked system is the one integrated", "solve_ivp does not integrate ode_system")
+    # C16.6: an adaptive Runge-Kutta step is sized from the local error estimate alone; at scipy's default tolerance (rtol 1e-3)
+    # with no bound on the step it grows over the flat part of a user profile and a localised feature is stepped over.  The
+    # clause is the necessary condition only: the call is not left at those defaults - a step bound below the span, or a
+    # relative tolerance below the default, is given as a constant
+    ms, rt = kw.get("max_step"), kw.get("rtol")
+    msv = const_float(ms) if isinstance(ms, Form) else None
+    rtv = const_float(rt) if isinstance(rt, Form) else None
+    bounded = (msv is not None and 0 < msv < 1) or (rtv is not None and 0 < rtv < 1e-3)
+    ctx.check("C16.6", bounded, fi, r.node, f"FBG: integrator settings max_step = {ms!r}, rtol = {rt!r}"[:160],
+              "the step is bounded below the unit span, or the tolerance is tighter than scipy's default: the integration is not left to the default step control",
+              "solve_ivp is left at its default step control (no max_step below the unit span, no rtol below 1e-3): the adaptive step grows where the profile is flat and a "
+              "localised feature of a user callable is stepped over (Bragg reflectivity 0.260 instead of tanh^2(kL*integral) = 0.375 for 0.5+exp(-((z+0.125)/0.12)^2))")
     # detuning / coupling passed to the ODE: evaluated on the optical grid of the simulation, lambda = 2*pi*c/(w_centred + 2*pi*gv.f0)
     CC = Form.atom(("c", "scipy.constants.c"))
     wc = mk_fn("fftshift", [2 * PI * mk_fn("fftfreq", [n]) * S("gv.fs")])
